@@ -36,6 +36,10 @@ CLAIMED = {
         text="Lean 4 proofs: box_breaks_cycles (a by-value relation that is a sub-relation of the dependency relation and never targets a node on a dependency cycle has no cycle, for any graph), cyclic_spec/cyclic_total (the executable cycle test equals `lies on a cycle` and always terminates), boxed_refs_acyclic. SchemaRegistry's cyclic set is compared with the model on every graph; the types emitted by the current sources are parsed with syn and their by-value containment graph and Default-construction graph are judged acyclic with the proved cycle test, exhaustively over all 2-schema graphs on the 8 edge kinds (thorough) and sampled 3-6-schema graphs.",
         note="Trusted: Lean kernel; the reading of emitted field types into value/Option/Box/Vec/map wrapper chains; better_default's expansion rule; rustc E0072 itself is not run in the quick tier; round trips of deep documents are covered by C02's arena, not here. Two Default-recursion classes (union first variant, required-member cycle) are recorded as known findings.",
         ref="§6 C10"),
+    "C08": dict(
+        text="Lean 4 proofs over a model of OperationRegistry (filter on the base id during ingestion, uniquifying suffixes, common-affix trimming over the filtered set): selection is whole-identifier list membership, --exclude is the complement of --only, and (select_exact) when base ids are pairwise distinct and trimming is the identity on every sub-selection, `list` prints the base ids and --only/--exclude select exactly the listed rows, each once; counter-example theorems exhibit the configurations where today's code breaks the property. Tied to the code by comparing the model with OperationRegistry::with_filters on random operation sets and by running the REAL binary: `list operations`, then `generate --only/--exclude S` for subsets S of the printed ids, mapping emitted methods back to (METHOD, path).",
+        note="Trusted: Lean kernel; regex parsing of the CLI table; doc lines to identify methods. Known findings: trimmed ids are not accepted by the filter, uniquified ids, silently dropped operations, trimming to a non-identifier (panic).",
+        ref="§6 C08"),
 }
 PENDING = ["C01","C02","C03","C04","C05","C06","C07","C08","C10","C11","C12","C13","C14","C15","C16","C17","C18","C19","C20"]
 
